@@ -112,6 +112,17 @@ def main():
     if os.path.exists(os.path.join(src, "patch_on_head.diff")):
         shutil.copy(os.path.join(src, "patch_on_head.diff"), os.path.join(dst, "patch_on_head.diff"))
         meta["note"] = "patch.diff applies to the pinned commit; patch_on_head.diff is the same change re-made on /repo HEAD (after our fix: commits)"
+    prev_path = os.path.join(dst, "meta.json")
+    if os.path.exists(prev_path):
+        try:
+            prev = json.load(open(prev_path))
+            if "suite" in prev and "suite" not in meta:
+                meta["suite"] = prev["suite"]  # confirmed by an earlier run of this tool
+            hist = prev.get("our_checks_history", [])
+            hist.append(prev.get("our_checks"))
+            meta["our_checks_history"] = hist[-5:]
+        except Exception:
+            pass
     with open(os.path.join(dst, "meta.json"), "w") as f:
         json.dump(meta, f, indent=1)
     return 0
